@@ -44,6 +44,8 @@ type Channel interface {
 
 func initChannel() {
 	ChannelClass = NewClassWithOptions(ClassWithConstructor(UndefinedConstructor))
+	// headers/channel.elh: include Iterable::FiniteBase[V]
+	ChannelClass.IncludeMixin(IterableFiniteBaseMixin)
 	StdModule.AddConstantString("Channel", Ref(ChannelClass))
 	RegisterNativeClass("Std::Channel", "value.ChannelClass")
 
